@@ -14,7 +14,7 @@ use crate::proto::{Ctx, attrs};
 pub fn meta() -> Meta {
     Meta {
         level: "exploration",
-        rule: "exhaustive: n=3, all 6 variable orders: empty/base/singleton(v); subset0/subset1/change for all 256 families x 3 variables; union/intsec/diff for all 65536 pairs; make_node(var, hi, lo) for every variable and every (hi, lo) pair of families that mention only variables below var's level; Boolean view (eval over all manager variables = membership); every ordered pair of distinct orders: families built under the first order (all 256, and a sparse live set), set_var_order to the second, then family / subset0 / subset1 / change / union / intsec / diff / singleton; then add_vars(1) (twice): every old handle keeps its family, its Boolean view is false whenever a new variable is true, and operations between old and new handles still agree with the model on n+1 variables. Before the first add_vars the full family is used in diff/intsec/not on every handle (results dropped), afterwards every family 'all sets over the variables from level l downwards' is combined with every old handle. thorough: n=4 all 65536 families for the unary operations under 3 orders. Non-trivial: operand families are neither empty nor {∅} and distinct.",
+        rule: "`wide`: 300 variables, 4 families over {0,1,2,256,257,258}: subset0/subset1/change for every ordered pair of those variables back to back, handle must equal the model family built with make_node+union. Exhaustive: n=3, all 6 variable orders: empty/base/singleton(v); subset0/subset1/change for all 256 families x 3 variables; union/intsec/diff for all 65536 pairs; make_node(var, hi, lo) for every variable and every (hi, lo) pair of families that mention only variables below var's level; Boolean view (eval over all manager variables = membership); every ordered pair of distinct orders: families built under the first order (all 256, and a sparse live set), set_var_order to the second, then family / subset0 / subset1 / change / union / intsec / diff / singleton; then add_vars(1) (twice): every old handle keeps its family, its Boolean view is false whenever a new variable is true, and operations between old and new handles still agree with the model on n+1 variables. Before the first add_vars the full family is used in diff/intsec/not on every handle (results dropped), afterwards every family 'all sets over the variables from level l downwards' is combined with every old handle. thorough: n=4 all 65536 families for the unary operations under 3 orders. Non-trivial: operand families are neither empty nor {∅} and distinct.",
         assumptions: vec![
             "operand families are built through reduce/then_insert; results are read by the harness's own family interpreter".into(),
             "random families over 5..8 variables not enumerated".into(),
@@ -40,6 +40,8 @@ pub fn shards(tier: &str) -> Vec<String> {
             }
         }
     }
+    // variable numbers beyond 8 bits: a cache key or table that truncates the variable is hit here
+    v.push("012:wide".into());
     if tier == "thorough" {
         for o in ["0123", "3210", "1302"] {
             for p in 0..8 {
@@ -81,11 +83,83 @@ fn nt(t: Tab) -> bool {
     t > 1
 }
 
+/// 300 variables, families over the variables {0, 1, 2, 256, 257, 258}: subset0 / subset1 / change for every
+/// ordered pair (v, w) of those variables, back to back on the same family (no collection in between); every
+/// answer must be the handle of the model family (families are built with make_node + union only).
+fn run_wide(ctx: &mut Ctx) {
+    use std::collections::BTreeSet;
+    type Fam = BTreeSet<BTreeSet<u32>>;
+    ctx.group("300 variables: subset0/subset1/change on variables that agree modulo 256", |ctx| {
+        let mref = oxidd::zbdd::new_manager(1 << 14, 1 << 12, 1);
+        mref.with_manager_exclusive(|m| {
+            m.add_vars(300);
+        });
+        let build = |fam: &Fam| -> ZBDDFunction {
+            mref.with_manager_shared(|m| {
+                let mut acc = ZBDDFunction::empty(m);
+                for s in fam {
+                    let mut c = ZBDDFunction::base(m);
+                    for &v in s.iter().rev() {
+                        let var = ZBDDFunction::singleton(m, v).expect("harness: singleton");
+                        let hi = m.clone_edge(c.as_edge(m));
+                        let lo = m.clone_edge(ZBDDFunction::empty(m).as_edge(m));
+                        c = ZBDDFunction::from_edge(m, oxidd::zbdd::make_node(m, var.as_edge(m), hi, lo).expect("harness: make_node"));
+                    }
+                    acc = acc.union(&c).expect("harness: union");
+                }
+                acc
+            })
+        };
+        let w = [0u32, 1, 2, 256, 257, 258];
+        let set = |v: &[u32]| -> BTreeSet<u32> { v.iter().copied().collect() };
+        let fams: Vec<Fam> = vec![
+            [set(&[0, 1, 257])].into_iter().collect(),
+            [set(&[0, 1, 257]), set(&[1, 256]), set(&[2, 258]), set(&[0])].into_iter().collect(),
+            [set(&[1, 257]), set(&[257]), set(&[1]), set(&[])].into_iter().collect(),
+            [set(&[0, 2, 256, 258]), set(&[0, 1, 2, 256, 257, 258]), set(&[2, 258])].into_iter().collect(),
+        ];
+        for fam in &fams {
+            let f = build(fam);
+            for op in ["subset0", "subset1", "change"] {
+                for &a in &w {
+                    for &b in &w {
+                        for v in [a, b] {
+                            ctx.count("evaluations", 1);
+                            ctx.count("nontrivial", 1);
+                            let exp: Fam = match op {
+                                "subset0" => fam.iter().filter(|s| !s.contains(&v)).cloned().collect(),
+                                "subset1" => fam.iter().filter(|s| s.contains(&v)).map(|s| { let mut t = s.clone(); t.remove(&v); t }).collect(),
+                                _ => fam.iter().map(|s| { let mut t = s.clone(); if !t.remove(&v) { t.insert(v); } t }).collect(),
+                            };
+                            let got = match op {
+                                "subset0" => f.subset0(v),
+                                "subset1" => f.subset1(v),
+                                _ => f.change(v),
+                            };
+                            let ok = matches!(&got, Ok(g) if *g == build(&exp));
+                            if !ok {
+                                ctx.viol(
+                                    attrs(&[("kind", "zbdd"), ("op", op), ("class", "wide_variable")]),
+                                    json!({"kind": "zbdd", "vars": 300, "family": format!("{fam:?}"), "op": op, "var": v, "after_pair": [a, b]}),
+                                    &format!("zbdd with 300 variables: {op}({fam:?}, {v}) (request pair {a}, {b}) is not the family {exp:?}"),
+                                );
+                            }
+                        }
+                    }
+                }
+            }
+        }
+    });
+}
+
 pub fn run(ctx: &mut Ctx) {
     let shard = ctx.shard.clone();
     let (o, part) = shard.split_once(':').unwrap();
     let order = model::parse_order(o);
     let tc = ThreadCfg { threads: 1, split: None };
+    if part == "wide" {
+        return run_wide(ctx);
+    }
     if let Some(p) = part.strip_prefix("n4p") {
         return run_n4(ctx, &order, p.parse().unwrap());
     }
